@@ -415,6 +415,40 @@ def mb_chain_net(hops):
     return _mbnets[key]
 
 
+AUTO_WIDE = [{'f_min': 186.6e12, 'f_max': 190.0e12, 'spacing': 50e9}, {'f_min': 191.3e12, 'f_max': 196.0e12, 'spacing': 50e9}]
+AUTO_REDUCED = [{'f_min': 187.4e12, 'f_max': 190.0e12, 'spacing': 50e9}, {'f_min': 191.3e12, 'f_max': 196.0e12, 'spacing': 50e9}]
+AUTO_KINDS = {'wide': (AUTO_WIDE, 'std_low_gain_multiband_bis'), 'reduced': (AUTO_REDUCED, 'std_low_gain_multiband_reduced_bis')}
+_autonets = {}
+
+
+def auto_mb_net(kinds, span_km=60.0):
+    """designed C+L ROADM chain WITHOUT any amplifier in the topology: every booster / preamp is a Multiband_amplifier inserted
+    and sized by the auto-design; ROADM i launches on the design bands and with the booster restriction of kinds[i] ('wide' =
+    full L band, 'reduced' = reduced-L multiband variety), so amplifiers of different band sets coexist in one network"""
+    key = repr((kinds, span_km))
+    if key not in _autonets:
+        from gnpy.tools.json_io import network_from_json
+        from gnpy.tools.worker_utils import designed_network
+        els, cxs = [], []
+        n = len(kinds)
+        for i, k in enumerate(kinds):
+            bands, booster = AUTO_KINDS[k]
+            els += [nets.trx(f'trx {i}'),
+                    nets.roadm(f'roadm {i}', {'design_bands': copy.deepcopy(bands),
+                                              'restrictions': {'preamp_variety_list': [], 'booster_variety_list': [booster]}})]
+            cxs += [nets.cx(f'trx {i}', f'roadm {i}'), nets.cx(f'roadm {i}', f'trx {i}')]
+        for i in range(n - 1):
+            nets.chain(els, cxs, f'roadm {i}', f'roadm {i + 1}', [nets.fiber(f'fiber ({i} -> {i + 1})', span_km)])
+            nets.chain(els, cxs, f'roadm {i + 1}', f'roadm {i}', [nets.fiber(f'fiber ({i + 1} -> {i})', span_km)])
+        eq = nets.eqpt('eqpt_config_multiband.json')
+        net = network_from_json({'elements': els, 'connections': cxs}, eq)
+        net, _, _ = designed_network(eq, net, source='trx 0', destination=f'trx {n - 1}')
+        if len(_autonets) > 20:
+            _autonets.clear()
+        _autonets[key] = (eq, net)
+    return _autonets[key]
+
+
 def gen_mb_hops(rng, l_first_share=0.6):
     """1-2 multiband hops of 3-5 amplifiers (so that ASE has accumulated before the amplifier under test), the
     amplifier lists in C,L or L,C order or left to the auto-design"""
